@@ -52,23 +52,22 @@ theorem view_rebase_roundtrip_new_counter :
 example : (seqRoundtripNew [0,1,2,3,4,5,6,7,8,9] { start := -3, stop := -10, step := -2, offset := 7, seqLen := 10 }).toOption
     = some ([1,2,3,4,5,6,7], { start := -1, stop := -8, step := -2, offset := 8, seqLen := 7 }) := by decide
 
-/-- New-style `Sequence.copy(sliced=True)`: correct when the view has no offset of its own. -/
-theorem seq_copy_new_roundtrip_partial {α} [Inhabited α] (parent : List α) (v : View)
-    (hinv : Inv v) (hlen : v.seqLen = parent.length) (hoff : v.offset = 0) :
+/-- New-style `Sequence.copy(sliced=True)` (`SeqView.copy(sliced=True)` builds the truncated
+parent with `step` only, the Sequence re-attaches `annotation_offset = parent_start`): for EVERY
+view satisfying the invariant, with ANY offset, the copy succeeds and is observationally the
+original. (Before repo commit f9c946a7e this held only for `v.offset = 0`; that witness is now a
+regression-corpus entry of the harness.) -/
+theorem seq_copy_new_roundtrip {α} [Inhabited α] (parent : List α) (v : View)
+    (hinv : Inv v) (hlen : v.seqLen = parent.length) :
     ∃ r, seqCopyNew parent v = .ok r ∧ RebaseOK parent v r :=
-  copy_new_path parent v hinv hlen hoff
+  copy_new_path parent v hinv hlen
 
 example : (seqCopyNew [0,1,2,3,4,5] { start := 1, stop := 5, step := 3, offset := 0, seqLen := 6 }).toOption
     = some ([1,2,3,4], { start := 0, stop := 4, step := 3, offset := 1, seqLen := 4 }) := by decide
-
-/- FULL STATEMENT (not proved): the same without `hoff`. False for the mirrored model:
-   new `SeqView.copy(sliced=True)` keeps `offset=self.offset` on the truncated parent, and the
-   `Sequence` constructor then refuses `annotation_offset = parent_start` because the view
-   already has an offset — `copy()` raises `ValueError` on every new-style sequence with an
-   annotation offset.  Witness (replayed on the real code by the harness): -/
-theorem seq_copy_new_counter :
-    seqCopyNew [0,1,2,3] { start := 0, stop := 4, step := 1, offset := 5, seqLen := 4 } = .error .valueError := by
-  rfl
+example : (seqCopyNew [0,1,2,3] { start := 0, stop := 4, step := 1, offset := 5, seqLen := 4 }).toOption
+    = some ([0,1,2,3], { start := 0, stop := 4, step := 1, offset := 5, seqLen := 4 }) := by decide
+example : (seqCopyNew [0,1,2,3,4,5,6,7,8,9] { start := -3, stop := -10, step := -2, offset := 7, seqLen := 10 }).toOption
+    = some ([1,2,3,4,5,6,7], { start := -1, stop := -8, step := -2, offset := 8, seqLen := 7 }) := by decide
 
 /-- `SeqDataView.to_rich_dict` (sequence taken out of a new-style collection) exports the
 right string when the view is an unsliced forward prefix. -/
@@ -133,38 +132,7 @@ theorem featuremap_pickle_roundtrip (m : FeatureMap) :
     funext a; exact span_pickle_roundtrip a
   simp [this]
 
-/-- `FeatureMap.to_rich_dict` → `from_rich_dict` (JSON): the span dicts are the recorded
-constructor arguments, so the rebuilt map is the same map. -/
-theorem featuremap_roundtrip (m : FeatureMap) :
-    (FeatureMap.construct m).roundtripJson = FeatureMap.construct m := by
-  simp [BuiltFeatureMap.roundtripJson, BuiltFeatureMap.toRich, FeatureMap.construct, FeatureMap.build]
-
 example : (FeatureMap.build { spans := [.span 5 (some 2) false false false, .lost 3, .span 7 none false false true], parentLength := 10 }).length = 7 := by decide
-
-/-! ### current (repaired) export branches
-
-The repo now carries the fixes f9c946a7e (new `SeqView.copy(sliced=True)` no longer keeps the old
-offset) and 0de96f35a (`Span.to_rich_dict` exports the live state). `seqCopyNew` /
-`BuiltFeatureMap.toRich` above mirror the code BEFORE those commits; the theorems below are about
-the code as it is now (`seqCopyNewRepaired`, `FeatureState.roundtripJsonLive`), which is what the
-harness correspondence runs first. -/
-
-/-- CURRENT new-style `Sequence.copy(sliced=True)`: for EVERY view satisfying the invariant
-(any offset) the copy succeeds and is observationally the original (no `hoff` needed). -/
-theorem seq_copy_new_repaired_roundtrip {α} [Inhabited α] (parent : List α) (v : View)
-    (hinv : Inv v) (hlen : v.seqLen = parent.length) :
-    ∃ r, seqCopyNewRepaired parent v = .ok r ∧ RebaseOK parent v r := by
-  obtain ⟨r, hr, hok⟩ := old_path parent v hinv hlen
-  refine ⟨r, ?_, hok⟩
-  rw [← hr]
-  simp only [seqCopyNewRepaired, viewCopyNewRepaired, seqRoundtripOld, fromRich, toRich_offset,
-    Option.getD_none, toRich_step]
-
--- the witness of `seq_copy_new_counter` (offset 5) now round-trips, and a reversed strided view with an offset
-example : (seqCopyNewRepaired [0,1,2,3] { start := 0, stop := 4, step := 1, offset := 5, seqLen := 4 }).toOption
-    = some ([0,1,2,3], { start := 0, stop := 4, step := 1, offset := 5, seqLen := 4 }) := by decide
-example : (seqCopyNewRepaired [0,1,2,3,4,5,6,7,8,9] { start := -3, stop := -10, step := -2, offset := 7, seqLen := 10 }).toOption
-    = some ([1,2,3,4,5,6,7], { start := -1, stop := -8, step := -2, offset := 8, seqLen := 7 }) := by decide
 
 /-- the live-state export of one span re-builds the same span, for every well-formed live span
 (`start ≤ end`), not only freshly constructed ones -/
@@ -175,10 +143,10 @@ theorem span_live_roundtrip (x : SpanState) (h : x.WF) : x.richArgs.build = x :=
     have h' : ¬ s > e := by simp only [SpanState.WF] at h; omega
     simp only [SpanState.richArgs, SpanArgs.build, h', if_false]
 
-/-- CURRENT `FeatureMap.to_rich_dict` → `from_rich_dict` (JSON): every well-formed live map state —
+/-- `FeatureMap.to_rich_dict` → `from_rich_dict` (JSON; spans export their LIVE state): every well-formed live map state —
 whatever history of constructor calls and in-place span shifts (`zeroed()`) produced it — comes back
 unchanged: same spans, parent_length and length. -/
-theorem featurestate_json_live_roundtrip (s : FeatureState) (h : s.WF) : s.roundtripJsonLive = s := by
+theorem featurestate_json_roundtrip (s : FeatureState) (h : s.WF) : s.roundtripJson = s := by
   obtain ⟨hs, hl⟩ := h
   have hm : (s.spans.map SpanState.richArgs).map SpanArgs.build = s.spans := by
     rw [List.map_map]
@@ -186,7 +154,7 @@ theorem featurestate_json_live_roundtrip (s : FeatureState) (h : s.WF) : s.round
     exact List.map_congr_left fun x hx => span_live_roundtrip x (hs x hx)
   cases s with
   | mk spans pl len =>
-    simp only [FeatureState.roundtripJsonLive, FeatureState.toRichLive, FeatureMap.build] at hm ⊢
+    simp only [FeatureState.roundtripJson, FeatureState.toRich, FeatureMap.build] at hm ⊢
     simp only [hm]
     simp only at hl
     rw [hl]
@@ -207,17 +175,21 @@ theorem featuremap_build_wf (m : FeatureMap) : (FeatureMap.build m).WF := by
       · simp only [SpanArgs.build, h, if_true, SpanState.WF]; omega
       · simp only [SpanArgs.build, h, if_false, SpanState.WF]; omega
 
+/-- … in particular every freshly constructed `FeatureMap` -/
+theorem featuremap_roundtrip (m : FeatureMap) : (FeatureMap.build m).roundtripJson = FeatureMap.build m :=
+  featurestate_json_roundtrip _ (featuremap_build_wf m)
+
 -- a state NOT in constructor-argument form (as left by `zeroed()`: spans shifted in place, swapped input order)
-example : ({ spans := [.span 0 3 false false true, .lost 2, .span 5 6 true false false], parentLength := 6, length := 6 } : FeatureState).roundtripJsonLive
+example : ({ spans := [.span 0 3 false false true, .lost 2, .span 5 6 true false false], parentLength := 6, length := 6 } : FeatureState).roundtripJson
     = { spans := [.span 0 3 false false true, .lost 2, .span 5 6 true false false], parentLength := 6, length := 6 } := by decide
-example : (FeatureMap.build { spans := [.span 5 (some 2) false false false, .lost 3, .span 7 none false false true], parentLength := 10 }).roundtripJsonLive
+example : (FeatureMap.build { spans := [.span 5 (some 2) false false false, .lost 3, .span 7 none false false true], parentLength := 10 }).roundtripJson
     = FeatureMap.build { spans := [.span 5 (some 2) false false false, .lost 3, .span 7 none false false true], parentLength := 10 } := by decide
 
 /-- pickle of any well-formed live map state (same re-initialisation from the live values) -/
 theorem featurestate_pickle_roundtrip (s : FeatureState) (h : s.WF) : s.roundtripPickle = s := by
   have e : SpanState.pickleArgs = SpanState.richArgs := by funext x; cases x <;> rfl
-  have := featurestate_json_live_roundtrip s h
-  simpa only [FeatureState.roundtripJsonLive, FeatureState.toRichLive, FeatureState.roundtripPickle, e] using this
+  have := featurestate_json_roundtrip s h
+  simpa only [FeatureState.roundtripJson, FeatureState.toRich, FeatureState.roundtripPickle, e] using this
 
 example : ({ spans := [.span 0 3 false false true, .lost 2, .span 5 6 true false false], parentLength := 6, length := 6 } : FeatureState).WF := by
   refine ⟨?_, by decide⟩
